@@ -10,7 +10,7 @@ class C08(FloorProp):
     def gen(self, rng, index, tier):
         from .. import floorsim
         # every second run: parallel single-slot stations behind one holder (clause f, idle-longest choice)
-        return floorsim.gen_case(rng, 'c08f' if index % 2 else 'c08')
+        return floorsim.gen_case(rng, 'c08f' if index % 2 else 'c08', big=(tier == 'thorough' and index % 8 < 2))
 
 
 PROP = C08()
